@@ -23,9 +23,11 @@ type CorpusItem struct {
 	Path    string  `json:"path"`
 	Cfg     CfgSpec `json:"cfg"`
 	Fail    string  `json:"fail,omitempty"`
-	Twin    int     `json:"twin,omitempty"`  // index of the item "same path, Config modified after Parse" (0: none)
-	Twin2   int     `json:"twin2,omitempty"` // index of the item "same path, a struct copy of the Config with one more function" (0: none)
-	Extra   int     `json:"extra,omitempty"` // the function a Twin2 config has in addition
+	Twin    int     `json:"twin,omitempty"`   // index of the item "same path, Config modified after Parse" (0: none)
+	Twin2   int     `json:"twin2,omitempty"`  // index of the item "same path, a struct copy of the Config with one more function" (0: none)
+	Extra   int     `json:"extra,omitempty"`  // the function a Twin2 config has in addition
+	PairA   int     `json:"pair_a,omitempty"` // index of the item "same path + Extra function, Config = original of a copy pair"
+	PairB   int     `json:"pair_b,omitempty"` // … "Config = the struct copy that registered Extra"
 	Outcome string  `json:"outcome,omitempty"`
 }
 
@@ -72,6 +74,21 @@ func buildCorpus(seed uint64) []CorpusItem {
 		if rn(25) == 24 {
 			p = genLongPath()
 			items = append(items, CorpusItem{Path: p.Text, Cfg: cfg})
+			continue
+		}
+		if rn(12) == 11 {
+			// a syntax error at the end (or in the middle) of an arbitrary - also long - valid path
+			var base string
+			if chance(40) {
+				base = genLongPath().Text
+				if len(base) > 200 {
+					base = base[:60+rn(140)]
+				}
+			} else {
+				base = genPathFor(pd[rn(len(pd))], cfg.Funcs, false, 6, 1).Text
+			}
+			bad := base + pick([]string{" ]", "[", "..", ".", "[?(", " =", "[0", "'", "[?(@.a = 1)]", "[1:2:3:4]", "[?(@.a == )]", ".a b", "[?(@.a > 'x' y)]"})
+			items = append(items, CorpusItem{Path: bad, Cfg: cfg, Fail: "syntax-error-variant"})
 			continue
 		}
 		switch rn(10) {
@@ -122,6 +139,34 @@ func buildCorpus(seed uint64) []CorpusItem {
 		}
 		items[i].Path = path
 		items = append(items, CorpusItem{Path: path, Cfg: c2, Fail: items[i].Fail, Twin: -1})
+	}
+	// pairs: A := config; B := A (struct copy); B registers one more function (of any kind).
+	// What A and B then hold is whatever Go's copy semantics of the Config type give - the
+	// fresh-process reference builds the pair the same way and makes ONE Parse call; a history
+	// makes a Parse call with the other member of the pair first.
+	for i := 0; i < n; i++ {
+		c := items[i].Cfg
+		if !c.Present || c.Replaced || c.Funcs == 0 || c.Funcs == 1<<nFuncs-1 || i%4 != 2 || items[i].Twin2 > 0 {
+			continue
+		}
+		extra := -1
+		for f := 0; f < nFuncs; f++ {
+			if c.Funcs&(1<<uint(f)) == 0 {
+				extra = f
+				break
+			}
+		}
+		path := items[i].Path
+		if items[i].Fail == "" {
+			path += "." + funcNames[extra] + "()"
+		}
+		ca, cb := c, c
+		ca.Script, ca.Extra = 1, extra
+		cb.Script, cb.Extra = 2, extra
+		items[i].PairA = len(items)
+		items = append(items, CorpusItem{Path: path, Cfg: ca, Fail: items[i].Fail, Twin: -1})
+		items[i].PairB = len(items)
+		items = append(items, CorpusItem{Path: path, Cfg: cb, Fail: items[i].Fail, Twin: -1})
 	}
 	return items
 }
@@ -331,6 +376,36 @@ func runC19() *RunResult {
 					}
 				}
 				t.ops = append(t.ops, cp)
+			}
+			if it.PairA > 0 && chance(70) {
+				// a Config and its struct copy that registered one more function: a Parse call with
+				// one of them must not change what a Parse call with the other one does
+				first := rn(2)
+				pa := &Op{Kind: opCustom, Path: &PathSpec{Text: c19Corpus[it.PairA].Path + "  (Config pair: original and extended struct copy)"}, Cfg: c19Corpus[it.PairA].Cfg}
+				pa.Do = func(t *Task, o *Op) {
+					if c19Expect == nil {
+						return
+					}
+					a, b := buildConfigPair(c19Corpus[it.PairA].Cfg)
+					cfgs := []jsonpath.Config{a, b}
+					idxs := []int{it.PairA, it.PairB}
+					t.probe("config-pair-original-and-copy")
+					for step := 0; step < 3; step++ {
+						which := (first + step) % 2
+						_, got, _ := execItem(c19Corpus[idxs[which]], []jsonpath.Config{cfgs[which]}, 0, &t.rec)
+						if simrt.Aborted() != 0 {
+							return
+						}
+						t.judged++
+						o.Got += got.Parse + ";"
+						if got.String() != c19Expect[idxs[which]] {
+							t.fail("C19:outcome-differs-from-first-call-in-fresh-process", c19Corpus[idxs[which]].Path,
+								fmt.Sprintf("Parse(%q, %s), call %d of a sequence alternating between a Config and its extended struct copy\n  got               %s\n  fresh process got %s", c19Corpus[idxs[which]].Path, c19Corpus[idxs[which]].Cfg, step+1, clip(got.String(), 600), clip(c19Expect[idxs[which]], 600)))
+							return
+						}
+					}
+				}
+				t.ops = append(t.ops, pa)
 			}
 			if it.Cfg.Present && !it.Cfg.Replaced && chance(10) {
 				// the API takes a variadic list of Configs.  A call that passes the caller's kept
